@@ -107,7 +107,10 @@ inductive Stored where
   | bool (b : Bool)
   | int32 (v : Int)
   | int64 (v : Int)
-  | float64 (bits : Nat)      -- IEEE 754 binary64 bit pattern
+  /-- IEEE 754 binary64 bit pattern, and the text `strconv.FormatFloat(x, 'f', -1, 64)` prints for it
+      (shortest round-trip decimal: data that travels with the value — the harness supplies it; it is
+      read only by `FieldToString`, and every theorem holds whatever it is) -/
+  | float64 (bits : Nat) (text : Bytes)
   | string (s : Bytes)
   | time (ns : Int)           -- instant, nanoseconds since the Unix epoch
   deriving Repr, DecidableEq, Inhabited
@@ -126,10 +129,36 @@ def fieldToInt64 : Stored → Option Int
   | .int64 v => some v
   | _ => none
 
-/-- `FieldToFloat64`.  The int → float64 conversion branch (a Float64 symbol over an int-stored
-    field) is NOT modelled: the harness never stores an int under a Float64 symbol. -/
+/-! #### Go's `float64(int64)`: round to nearest, ties to even -/
+
+def f64Inf : Nat := 0x7FF0000000000000
+
+/-- magnitude bits (sign bit clear) of the float64 nearest to the natural number `n` -/
+def natToF64Mag (n : Nat) : Nat :=
+  if n = 0 then 0 else
+  let e := n.log2
+  if e ≤ 52 then (e + 1023) * 2 ^ 52 + (n * 2 ^ (52 - e) - 2 ^ 52)
+  else
+    let sh := e - 52
+    let q := n / 2 ^ sh
+    let rem := n % 2 ^ sh
+    let half := 2 ^ (sh - 1)
+    let q' := if rem > half ∨ (rem = half ∧ q % 2 = 1) then q + 1 else q
+    -- a mantissa that rounds up to 2^53 carries into the exponent by itself
+    (e + 1023) * 2 ^ 52 + (q' - 2 ^ 52)
+
+/-- `float64(v)` as a bit pattern (a magnitude beyond the float64 range would be +-Inf; an int64 never is) -/
+def clampInf (m : Nat) : Nat := if m ≤ f64Inf then m else f64Inf
+
+def intToF64Bits (v : Int) : Nat :=
+  if v < 0 then 9223372036854775808 + clampInf (natToF64Mag v.natAbs) else clampInf (natToF64Mag v.natAbs)
+
+/-- `FieldToFloat64`: a float64 field as it is, an int32 / int64 field converted with `float64(int64)`,
+    anything else nil -/
 def fieldToFloat64 : Stored → Option Nat
-  | .float64 b => some b
+  | .float64 b _ => some b
+  | .int32 v => some (intToF64Bits v)
+  | .int64 v => some (intToF64Bits v)
   | _ => none
 
 def fieldToDatetime : Stored → Option Int
@@ -147,14 +176,50 @@ def natDigits (fuel n : Nat) (acc : Bytes) : Bytes :=
 def intText (v : Int) : Bytes :=
   if v < 0 then 45 :: natDigits 25 v.natAbs [] else natDigits 25 v.natAbs []
 
-/-- `FieldToString`: strings as they are, bool and ints formatted; the float and time formatting
-    branches are NOT modelled (never generated) -/
+/-! #### `time.Time.MarshalText` of a UTC instant (RFC 3339 with nanoseconds, trailing zeros trimmed) -/
+
+def pad (w : Nat) (n : Nat) : Bytes :=
+  let d := natDigits 25 n []
+  List.replicate (w - d.length) 48 ++ d
+
+/-- proleptic Gregorian (year, month, day) of a day number counted from 1970-01-01 -/
+def civilFromDays (days : Int) : Int × Nat × Nat :=
+  let z := days + 719468
+  let era := z / 146097
+  let doe := (z - era * 146097).toNat
+  let yoe := (doe - doe / 1460 + doe / 36524 - doe / 146096) / 365
+  let doy := doe - (365 * yoe + yoe / 4 - yoe / 100)
+  let mp := (5 * doy + 2) / 153
+  let d := doy - (153 * mp + 2) / 5 + 1
+  let m := if mp < 10 then mp + 3 else mp - 9
+  let y : Int := (yoe : Int) + era * 400
+  (if m ≤ 2 then y + 1 else y, m, d)
+
+def trimZeros (b : Bytes) : Bytes := (b.reverse.dropWhile (· == 48)).reverse
+
+/-- `MarshalText`: `none` when the year is outside [0, 9999] (the Go function returns an error and
+    `FieldToString` then yields nil) -/
+def timeText (ns : Int) : Option Bytes :=
+  let secs := ns / 1000000000
+  let frac := (ns % 1000000000).toNat
+  let days := secs / 86400
+  let sod := (secs % 86400).toNat
+  let (y, m, d) := civilFromDays days
+  if y < 0 ∨ y > 9999 then none else
+  let fracPart : Bytes := if frac = 0 then [] else 46 :: trimZeros (pad 9 frac)
+  some (pad 4 y.toNat ++ [45] ++ pad 2 m ++ [45] ++ pad 2 d ++ [84] ++ pad 2 (sod / 3600) ++ [58] ++
+    pad 2 (sod % 3600 / 60) ++ [58] ++ pad 2 (sod % 60) ++ fracPart ++ [90])
+
+/-- `FieldToString`: strings as they are; bool, ints, floats and instants formatted
+    (`strconv.FormatBool`, `strconv.Itoa`, `strconv.FormatFloat(x,'f',-1,64)`, `MarshalText`) -/
 def fieldToString : Stored → Option Bytes
   | .string s => some s
   | .bool b => some (boolText b)
   | .int32 v => some (intText v)
   | .int64 v => some (intText v)
-  | _ => none
+  | .float64 _ text => some text
+  | .time ns => timeText ns
+  | .nil => none
 
 /-! ### float64 `<` through the bit pattern -/
 
@@ -171,7 +236,20 @@ def fLt (a b : Nat) : Bool := !fIsNaN a && !fIsNaN b && decide (fOrd a < fOrd b)
 
 def cmpBoolVal (a b : Bool) : Ordering := if !a && b then .lt else if a && !b then .gt else .eq
 def cmpStrVal (a b : Bytes) : Ordering := cmpBytes a b
-def cmpFloatVal (a b : Nat) : Ordering := if fLt a b then .lt else if fLt b a then .gt else .eq
+/-- `float64SymbolComparator.Compare` on two non-nil keys.  `nanFirst` = the branch
+    `else if *s1 != *s1 || *s2 != *s2 { if *s1 == *s1 { 1 } else if *s2 == *s2 { -1 } }` is present (since
+    1532996): NaN before every number, NaNs tie.  Without it (`nanFirst = false`, the comparator before
+    1532996) NaN ties with everything, because `<` and `>` are both false. -/
+def cmpFloatValWith (nanFirst : Bool) (a b : Nat) : Ordering :=
+  if nanFirst && (fIsNaN a || fIsNaN b) then
+    (if !fIsNaN a then .gt else if !fIsNaN b then .lt else .eq)
+  else if fLt a b then .lt else if fLt b a then .gt else .eq
+
+/-- the comparator of the code as it is (the `float_comparator_facts_expected` obligation pins the NaN branch) -/
+def cmpFloatVal (a b : Nat) : Ordering := cmpFloatValWith true a b
+
+/-- monotone integer image of EVERY float64: NaN below everything (fOrd is within ±2^63) -/
+def fKey (bits : Nat) : Int := if fIsNaN bits then -18446744073709551616 else fOrd bits
 /-- `Before` / `After` on instants -/
 def cmpTimeVal (a b : Int) : Ordering := cmpInt a b
 
@@ -180,12 +258,28 @@ theorem cmpBoolVal_eq (a b : Bool) : cmpBoolVal a b = cmpInt (if a then 1 else 0
 
 theorem cmpFloatVal_eq {a b : Nat} (ha : fIsNaN a = false) (hb : fIsNaN b = false) :
     cmpFloatVal a b = cmpInt (fOrd a) (fOrd b) := by
-  simp only [cmpFloatVal, fLt, ha, hb, cmpInt]
+  simp only [cmpFloatVal, cmpFloatValWith, fLt, ha, hb, cmpInt]
   by_cases h1 : fOrd a < fOrd b
   · simp [h1]
   · by_cases h2 : fOrd b < fOrd a
     · simp [h1, h2]
     · simp [h1, h2]
+
+theorem fOrd_gt (bits : Nat) : -18446744073709551616 < fOrd bits := by
+  unfold fOrd; split <;> omega
+
+/-- the float64 comparator IS integer comparison of the keys, NaN included -/
+theorem cmpFloatVal_eq_key (a b : Nat) : cmpFloatVal a b = cmpInt (fKey a) (fKey b) := by
+  have ga := fOrd_gt a
+  have gb := fOrd_gt b
+  cases ha : fIsNaN a <;> cases hb : fIsNaN b
+  · rw [cmpFloatVal_eq ha hb]; simp [fKey, ha, hb]
+  · simp only [cmpFloatVal, cmpFloatValWith, fKey, ha, hb, cmpInt]
+    have h1 : ¬ fOrd a < -18446744073709551616 := by omega
+    simp [h1, ga]
+  · simp only [cmpFloatVal, cmpFloatValWith, fKey, ha, hb, cmpInt]
+    simp [gb]
+  · simp [cmpFloatVal, cmpFloatValWith, fKey, ha, hb, cmpInt]
 
 theorem weakOrd_int_image {κ : Type} {Q : κ → Prop} {c : κ → κ → Ordering} (f : κ → Int)
     (h : ∀ a b, Q a → Q b → c a b = cmpInt (f a) (f b)) : WeakOrdOn Q c := by
@@ -198,8 +292,8 @@ theorem weakOrd_int_image {κ : Type} {Q : κ → Prop} {c : κ → κ → Order
 theorem cmpBoolVal_weak : WeakOrdOn (fun _ => True) cmpBoolVal :=
   weakOrd_int_image (fun b => if b then 1 else 0) (fun a b _ _ => cmpBoolVal_eq a b)
 
-theorem cmpFloatVal_weak : WeakOrdOn (fun x => fIsNaN x = false) cmpFloatVal :=
-  weakOrd_int_image fOrd (fun _ _ ha hb => cmpFloatVal_eq ha hb)
+theorem cmpFloatVal_weak : WeakOrdOn (fun _ => True) cmpFloatVal :=
+  weakOrd_int_image fKey (fun a b _ _ => cmpFloatVal_eq_key a b)
 
 /-! ### rows, schema, `newRowComparator` -/
 
@@ -260,13 +354,16 @@ def newRowComparator (schema : Schema) (sort : List SortField) : Except SortErr 
   | .error e => .error e
   | .ok cs => .ok (chain cs)
 
-/-- the value of symbol `name` in row `r`, if it is a float64, is not NaN -/
-def NoNaNAt (name : String) (r : Row) : Prop := ∀ bits, evalSym name r = .float64 bits → fIsNaN bits = false
+/-- `float64(int64)` is never NaN -/
+theorem intToF64Bits_not_nan (v : Int) : fIsNaN (intToF64Bits v) = false := by
+  have hc : clampInf (natToF64Mag v.natAbs) ≤ 9218868437227405312 := by
+    unfold clampInf f64Inf; split <;> omega
+  unfold fIsNaN intToF64Bits
+  by_cases hv : v < 0
+  · simp only [hv, if_true, decide_eq_false_iff_not]; omega
+  · simp only [hv, if_false, decide_eq_false_iff_not]; omega
 
-/-- **the data hypothesis of C02**: no sort key of the row is NaN -/
-def NoNaNKeys (fs : List SortField) (r : Row) : Prop := ∀ f ∈ fs, NoNaNAt f.name r
-
-theorem symCmp_weak (ty : SymType) (name : String) (fwd : Bool) : WeakOrdOn (NoNaNAt name) (symCmp ty name fwd) := by
+theorem symCmp_weak (ty : SymType) (name : String) (fwd : Bool) : WeakOrdOn (fun _ => True) (symCmp ty name fwd) := by
   unfold symCmp
   apply weakOrd_dir
   cases ty with
@@ -277,11 +374,8 @@ theorem symCmp_weak (ty : SymType) (name : String) (fwd : Bool) : WeakOrdOn (NoN
     exact (weakOrd_pullback (fun r => fieldToDatetime (evalSym name r))
       (weakOrd_nullsFirst (base := cmpTimeVal) cmpInt_strict.toWeakOrdOn)).mono (fun _ _ _ _ => trivial)
   | float64 =>
-    refine (weakOrd_pullback (fun r => fieldToFloat64 (evalSym name r)) (weakOrd_nullsFirst cmpFloatVal_weak)).mono ?_
-    intro r hr v hv
-    cases hs : evalSym name r <;> simp [hs, fieldToFloat64] at hv
-    subst hv
-    exact hr _ hs
+    exact (weakOrd_pullback (fun r => fieldToFloat64 (evalSym name r)) (weakOrd_nullsFirst cmpFloatVal_weak)).mono
+      (fun _ _ _ _ => trivial)
   | int64 =>
     exact (weakOrd_pullback (fun r => fieldToInt64 (evalSym name r))
       (weakOrd_nullsFirst cmpInt_strict.toWeakOrdOn)).mono (fun _ _ _ _ => trivial)
@@ -291,7 +385,7 @@ theorem symCmp_weak (ty : SymType) (name : String) (fwd : Bool) : WeakOrdOn (NoN
   | other => exact weakOrd_const _
 
 theorem resolveSort_weak {schema : Schema} {fs : List SortField} {cs : List (Cmp Row)}
-    (h : resolveSort schema fs = .ok cs) : ∀ c ∈ cs, WeakOrdOn (NoNaNKeys fs) c := by
+    (h : resolveSort schema fs = .ok cs) : ∀ c ∈ cs, WeakOrdOn (fun _ => True) c := by
   induction fs generalizing cs with
   | nil => simp [resolveSort] at h; subst h; simp
   | cons f rest ih =>
@@ -309,8 +403,8 @@ theorem resolveSort_weak {schema : Schema} {fs : List SortField} {cs : List (Cmp
             subst h
             intro c hc
             rcases List.mem_cons.1 hc with rfl | hc
-            · exact (symCmp_weak _ _ _).mono (fun r hr => hr f (List.mem_cons_self ..))
-            · exact (ih hcs c hc).mono (fun r hr g hg => hr g (List.mem_cons_of_mem _ hg))
+            · exact symCmp_weak _ _ _
+            · exact ih hcs c hc
 
 theorem chain_eq_all {ρ : Type} {cs : List (Cmp ρ)} {a b : ρ} (h : chain cs a b = .eq) : ∀ c ∈ cs, c a b = .eq := by
   induction cs with
@@ -378,26 +472,18 @@ theorem DistinctIds.nodup {ds : List Row} (hd : DistinctIds ds) : ds.Nodup :=
   List.Pairwise.imp (fun h e => h (congrArg Row.id e)) hd
 
 /-- **comparator_strict_total** (generic form): the comparator `newRowComparator` builds orders any
-    collection with distinct ids and no NaN sort key strictly and totally: nulls first, direction
-    per field, ties broken by id ascending. -/
+    collection with distinct ids — NaN float keys included — strictly and totally: nulls first, NaN
+    before every number, direction per field, ties broken by id ascending. -/
 theorem newRowComparator_strict {schema : Schema} {sort : List SortField} {c : Cmp Row} {ds : List Row}
     (hid : HasIdSymbol schema) (h : newRowComparator schema sort = .ok c)
-    (hnan : ∀ r ∈ ds, NoNaNKeys sort r) (hd : DistinctIds ds) : StrictTotalOn (fun r => r ∈ ds) c := by
+    (hd : DistinctIds ds) : StrictTotalOn (fun r => r ∈ ds) c := by
   unfold newRowComparator at h
   split at h
   · cases h
   · next cs hcs =>
     simp only [Except.ok.injEq] at h
     subst h
-    have hP : ∀ r, r ∈ ds → NoNaNKeys (sort ++ [⟨"id", true⟩]) r := by
-      intro r hr f hf
-      rcases List.mem_append.1 hf with hf | hf
-      · exact hnan r hr f hf
-      · simp only [List.mem_singleton] at hf
-        subst hf
-        intro bits hb
-        simp [evalSym] at hb
-    refine ⟨(weakOrd_chain cs (resolveSort_weak hcs)).mono hP, ?_⟩
+    refine ⟨(weakOrd_chain cs (resolveSort_weak hcs)).mono (fun _ _ => trivial), ?_⟩
     intro a b ha hb heq
     obtain ⟨info, h1, h2⟩ := resolveSort_last hcs
     have h1' : info = ⟨.string, false⟩ := by
